@@ -149,6 +149,12 @@ Proof.
   fix IH 1. intros args now d. destruct args as [|k [|v r]]; cbn [mset_loop]; try reflexivity.
   destruct (api_set k v false now d); try reflexivity. apply IH.
 Qed.
+Lemma mget_loop_one : forall ks acc now d, bres_one (mget_loop ks acc now d) = true.
+Proof.
+  induction ks as [|k r IH]; intros acc now d; cbn [mget_loop].
+  - cbn [bres_one]. apply one_obulks.
+  - destruct (api_get k now d); [apply IH|apply IH|reflexivity].
+Qed.
 Lemma zadd_loop_one : forall prs k i x nx lt gt c now d, bres_one (zadd_loop k prs i x nx lt gt c now d) = true.
 Proof.
   fix IH 1. intros prs k i x nx lt gt c now d. destruct prs as [|sc [|m r]]; cbn [zadd_loop]; try reflexivity.
